@@ -101,3 +101,9 @@ claim("C04",
       "Decides that lookups ask ClientID, then exact address, then subnets, then the DHCP MAC, each only after the previous failed; that own settings / own blocked services are applied only on their opt-out edges from the client's corresponding fields; that index changes are reached only after the clash checks returned nil inside one hold of the storage mutex, with an update removing the stored client's entries before adding the new ones; that add writes and remove deletes exactly all maps of the index, nobody else mutates them, and every identifier map is covered by a clash check and a finder; and that every index access happens under the storage mutex. "
       "The comparator that makes 'most specific CIDR' win and consistency over arbitrary operation histories are value/history-level and not decided.",
       "DESIGN.md §5 C04")
+
+claim("C09",
+      "lock dominance, SSA value identity and referrer sets for the persisted unit, increment counting in unit.add, provenance of the assembled window (static analysis)",
+      "Decides that the hourly rollover swaps and persists inside one hold of the unit write lock, that exactly the swapped-out unit's serialisation is persisted unmodified under its own id without reading anything back, that an update adds once, under the lock, after validation bounded the result code, that adding increments the total and exactly the entry's result slot by one on every path, that a clean close persists the current unit and start-up reloads and deserialises the unit of the hour it starts in, and that the reported window is assembled from the database and the live unit on every read. "
+      "Hour/window arithmetic, many-hour gaps and series/total relations are arithmetic over runtime values and not decided.",
+      "DESIGN.md §5 C09")
